@@ -32,7 +32,9 @@ VARIABLES
   file,     \* the shared file
   exists,   \* the file exists
   writer,   \* goroutine holding the write lock ("" none)
-  readers,  \* goroutines holding the read lock
+  readers,  \* [g -> number of read locks the goroutine holds]
+  pend,     \* goroutines that have announced Lock and wait for it (Go's RWMutex: a waiting
+            \* writer excludes NEW readers, so a goroutine re-entering RLock can deadlock)
   pc,       \* [g -> index of the next primitive]
   kind,     \* [g -> branch taken, "" while in the read prefix]
   seen,     \* [g -> file content ReadAll returned]
@@ -43,14 +45,14 @@ VARIABLES
   out,      \* [g -> outcome signalled, "" while running]
   step      \* what moved last (for schedule export)
 
-vars == <<file, exists, writer, readers, pc, kind, seen, scan, hmode, tmp, trunc, out, step>>
+vars == <<file, exists, writer, readers, pend, pc, kind, seen, scan, hmode, tmp, trunc, out, step>>
 
 HdrG(g) == Hdr(TestOf[g], 1)
 Stored(g) == Escape(ValOf[g])
 
 Init ==
   /\ file = InitFile /\ exists = (InitFile.lines # <<>>)
-  /\ writer = "" /\ readers = {}
+  /\ writer = "" /\ readers = [g \in Gs |-> 0] /\ pend = {}
   /\ pc = [g \in Gs |-> 1] /\ kind = [g \in Gs |-> ""]
   /\ seen = [g \in Gs |-> EmptyFile] /\ scan = [g \in Gs |-> EmptyFile]
   /\ hmode = [g \in Gs |-> ""] /\ trunc = [g \in Gs |-> FALSE] /\ tmp = [g \in Gs |-> EmptyFile]
@@ -86,33 +88,36 @@ Prim(g) ==
   /\ ~Done(g)
   /\ LET op == Cur(g) IN
      /\ step' = [g |-> g, op |-> op]
-     /\ CASE op = "RLock"   -> /\ writer = "" /\ readers' = readers \cup {g}
-                               /\ UNCHANGED <<file, exists, writer, seen, scan, hmode, tmp, trunc>>
-          [] op = "RUnlock" -> /\ readers' = readers \ {g}
-                               /\ UNCHANGED <<file, exists, writer, seen, scan, hmode, tmp, trunc>>
-          [] op = "Lock"    -> /\ writer = "" /\ readers = {} /\ writer' = g
+     /\ CASE op = "RLock"   -> /\ writer = "" /\ pend = {} /\ readers' = [readers EXCEPT ![g] = @ + 1]
+                               /\ UNCHANGED <<file, exists, writer, pend, seen, scan, hmode, tmp, trunc>>
+          [] op = "RUnlock" -> /\ readers' = [readers EXCEPT ![g] = IF @ > 0 THEN @ - 1 ELSE 0]
+                               /\ UNCHANGED <<file, exists, writer, pend, seen, scan, hmode, tmp, trunc>>
+          [] op = "LockReq" -> /\ pend' = pend \cup {g}
+                               /\ UNCHANGED <<file, exists, writer, readers, seen, scan, hmode, tmp, trunc>>
+          [] op = "Lock"    -> /\ writer = "" /\ \A h \in Gs : readers[h] = 0
+                               /\ writer' = g /\ pend' = pend \ {g}
                                /\ UNCHANGED <<file, exists, readers, seen, scan, hmode, tmp, trunc>>
           [] op = "Unlock"  -> /\ writer' = ""
-                               /\ UNCHANGED <<file, exists, readers, seen, scan, hmode, tmp, trunc>>
+                               /\ UNCHANGED <<file, exists, readers, pend, seen, scan, hmode, tmp, trunc>>
           [] op = "ReadAll" -> /\ seen' = [seen EXCEPT ![g] = IF exists THEN file ELSE EmptyFile]
-                               /\ UNCHANGED <<file, exists, writer, readers, scan, hmode, tmp, trunc>>
+                               /\ UNCHANGED <<file, exists, writer, readers, pend, scan, hmode, tmp, trunc>>
           [] op = "OpenAppend" -> /\ hmode' = [hmode EXCEPT ![g] = "append"] /\ exists' = TRUE
-                                  /\ UNCHANGED <<file, writer, readers, seen, scan, tmp, trunc>>
+                                  /\ UNCHANGED <<file, writer, readers, pend, seen, scan, tmp, trunc>>
           [] op = "OpenRW"  -> /\ hmode' = [hmode EXCEPT ![g] = "rw"]
-                               /\ UNCHANGED <<file, exists, writer, readers, seen, scan, tmp, trunc>>
+                               /\ UNCHANGED <<file, exists, writer, readers, pend, seen, scan, tmp, trunc>>
           [] op = "ScanAll" -> /\ scan' = [scan EXCEPT ![g] = file]
-                               /\ UNCHANGED <<file, exists, writer, readers, seen, hmode, tmp, trunc>>
+                               /\ UNCHANGED <<file, exists, writer, readers, pend, seen, hmode, tmp, trunc>>
           [] op = "Truncate" -> /\ file' = EmptyFile /\ trunc' = [trunc EXCEPT ![g] = TRUE]
-                                /\ UNCHANGED <<exists, writer, readers, seen, scan, hmode, tmp>>
+                                /\ UNCHANGED <<exists, writer, readers, pend, seen, scan, hmode, tmp>>
           [] op = "CreateTemp" -> /\ hmode' = [hmode EXCEPT ![g] = "temp"] /\ tmp' = [tmp EXCEPT ![g] = EmptyFile]
-                                  /\ UNCHANGED <<file, exists, writer, readers, seen, scan, trunc>>
+                                  /\ UNCHANGED <<file, exists, writer, readers, pend, seen, scan, trunc>>
           [] op = "Rename" -> \* the temporary file replaces the shared one atomically
                /\ file' = tmp[g] /\ exists' = TRUE
-               /\ UNCHANGED <<writer, readers, seen, scan, hmode, tmp, trunc>>
+               /\ UNCHANGED <<writer, readers, pend, seen, scan, hmode, tmp, trunc>>
           [] op = "Write" /\ hmode[g] = "temp" ->
                /\ tmp' = [tmp EXCEPT ![g] = IF kind[g] = "create" THEN AppendEntry(scan[g], HdrG(g), Stored(g))
                                                                   ELSE RewriteEntry(scan[g], HdrG(g), Stored(g))]
-               /\ UNCHANGED <<file, exists, writer, readers, seen, scan, hmode, trunc>>
+               /\ UNCHANGED <<file, exists, writer, readers, pend, seen, scan, hmode, trunc>>
           [] op = "Write"   ->
                /\ file' = IF hmode[g] = "append" THEN AppendEntry(file, HdrG(g), Stored(g))
                           ELSE \* RW handle at offset 0: overwrites from the start; what lies
@@ -122,9 +127,9 @@ Prim(g) ==
                                ELSE [lines |-> new.lines \o SubSeq(file.lines, Len(new.lines) + 1, Len(file.lines)),
                                      nl |-> file.nl]
                /\ trunc' = [trunc EXCEPT ![g] = FALSE]
-               /\ UNCHANGED <<exists, writer, readers, seen, scan, hmode, tmp>>
+               /\ UNCHANGED <<exists, writer, readers, pend, seen, scan, hmode, tmp>>
           [] OTHER -> \* MkdirAll, Seek, Close, Stat ...: no effect on the modelled state
-               UNCHANGED <<file, exists, writer, readers, seen, scan, hmode, tmp, trunc>>
+               UNCHANGED <<file, exists, writer, readers, pend, seen, scan, hmode, tmp, trunc>>
      /\ Advance(g)
 
 Next == \E g \in Gs : Prim(g)
